@@ -34,8 +34,8 @@ Expected(p, in) ==
       [] p.f = "pbkdf2"       -> OK(Pbkdf2(T, p.alg, p.pass, p.salt, p.iter, p.outlen))
       [] p.f = "hkdf_extract" -> OK(HkdfExtract(T, p.alg, p.salt, p.ikm))
       [] p.f = "hkdf_expand"  -> OK(HkdfExpand(T, p.alg, p.prk, p.info, p.outlen))
-      [] p.f = "ecb_enc"      -> OK(EcbEnc(T, p.c, p.key, in))
-      [] p.f = "ecb_dec"      -> OK(EcbDec(T, p.c, p.key, in))
+      [] p.f = "ecb_enc"      -> IF Len(in) % 16 = 0 THEN OK(EcbEnc(T, p.c, p.key, in)) ELSE FAIL
+      [] p.f = "ecb_dec"      -> IF Len(in) % 16 = 0 THEN OK(EcbDec(T, p.c, p.key, in)) ELSE FAIL
       [] p.f = "cbc_enc"      -> OK(CbcPadEnc(T, p.c, p.key, p.iv, in))
       [] p.f = "cbc_dec"      -> CbcPadDec(T, p.c, p.key, p.iv, in)
       [] p.f = "cbc_enc_blocks" -> OK(CbcEnc(T, p.c, p.key, p.iv, in))
@@ -45,8 +45,10 @@ Expected(p, in) ==
       [] p.f = "ofb"          -> OK(OfbEnc(T, p.c, p.key, p.iv, in))
       [] p.f = "cfb_enc"      -> OK(CfbEnc(T, p.c, p.key, p.iv, p.s, in))
       [] p.f = "cfb_dec"      -> OK(CfbDec(T, p.c, p.key, p.iv, p.s, in))
-      [] p.f = "xts_enc"      -> OK(XtsEnc(T, p.c, Take(p.key, 16), Drop(p.key, 16), p.iv, in))
-      [] p.f = "xts_dec"      -> OK(XtsDec(T, p.c, Take(p.key, 16), Drop(p.key, 16), p.iv, in))
+      [] p.f = "xts_enc"      -> IF Len(in) < 16 THEN FAIL ELSE OK(XtsEnc(T, p.c, Take(p.key, 16), Drop(p.key, 16), p.iv, in))
+      [] p.f = "xts_dec"      -> IF Len(in) < 16 THEN FAIL ELSE OK(XtsDec(T, p.c, Take(p.key, 16), Drop(p.key, 16), p.iv, in))
+      [] p.f = "xts_units_enc" -> XtsUnits(T, p.c, Take(p.key, 16), Drop(p.key, 16), p.iv, p.unit, in, TRUE)
+      [] p.f = "xts_units_dec" -> XtsUnits(T, p.c, Take(p.key, 16), Drop(p.key, 16), p.iv, p.unit, in, FALSE)
       [] p.f = "cbc_mac"      -> OK(CbcMac(T, p.c, p.key, in))
       [] p.f = "gcm_enc"      -> LET r == GcmEnc(T, p.c, p.key, p.iv, p.aad, in, p.taglen) IN OK(r.ct \o r.tag)
       [] p.f = "gcm_dec"      -> IF Len(in) < p.taglen THEN FAIL
@@ -65,28 +67,47 @@ Expected(p, in) ==
                                  IF r.ok THEN OK(<<r.type>> \o r.out) ELSE FAIL
 
 (* verdict of a completed operation: must succeed exactly when the definition says so, with exactly that output *)
-Verdict(p, in, out, rc) == LET x == Expected(p, in) IN IF x.ok THEN rc = 1 /\ out = x.out ELSE rc # 1
+(* C05: a tuple that differs in any bit from a genuine output of the matching encryption (marked touched by the harness that  *)
+(* made the change) must be refused, whatever the construction computes for it                                             *)
+Touched(p) == Has(p, "touched") /\ p.touched = 1
+Verdict(p, in, out, rc) == IF Touched(p) THEN rc # 1
+                           ELSE LET x == Expected(p, in) IN IF x.ok THEN rc = 1 /\ out = x.out ELSE rc # 1
 WithinQuery(ev) == (Has(ev, "qs") /\ ev.qs >= 0 /\ Has(ev, "out")) => Len(ev.out) <= ev.qs   \* qs = size reported by the same call with a NULL output buffer
+
+(* A failed contract condition at line l is reported and the run continues with the next execution (equivalent to rejecting *)
+(* the execution that contains line l, without restarting the checker for the executions after it)                        *)
+Chk(cond) == IF cond THEN TRUE ELSE PrintT(<<"MISMATCH", l>>)
 
 Init == l = 1 /\ phase = "idle" /\ par = <<>> /\ fed = <<>> /\ outs = <<>>
 TInit == /\ IsEvent("Init") /\ phase = "idle"
          /\ IF Ev.rc = 1 THEN phase' = "open" ELSE phase' = "refused"
          /\ par' = Ev /\ fed' = <<>> /\ outs' = <<>>
-(* an update may be refused only for an empty chunk, and then changes nothing *)
-TUpdate == /\ IsEvent("Update") /\ phase = "open" /\ WithinQuery(Ev)
-           /\ IF Ev.rc = 1 THEN fed' = fed \o Ev["in"] /\ outs' = outs \o Opt(Ev, "out", <<>>)
-              ELSE Len(Ev["in"]) = 0 /\ UNCHANGED <<fed, outs>>
-           /\ UNCHANGED <<phase, par>>
-TFinish == /\ IsEvent("Finish") /\ phase = "open" /\ WithinQuery(Ev)
-           /\ Verdict(par, fed, outs \o Opt(Ev, "out", <<>>), Ev.rc)
+(* an update may be refused for an empty chunk (nothing changes); a refusal of a non-empty chunk ends the operation: *)
+(* the harness reports the unfed remainder at Finish and the whole input must then be one the definition rejects       *)
+TUpdate == /\ IsEvent("Update") /\ phase = "open" /\ Chk(WithinQuery(Ev))
+           /\ IF Ev.rc = 1 THEN fed' = fed \o Ev["in"] /\ outs' = outs \o Opt(Ev, "out", <<>>) /\ UNCHANGED phase
+              ELSE IF Len(Ev["in"]) = 0 THEN UNCHANGED <<fed, outs, phase>>
+              ELSE fed' = fed \o Ev["in"] /\ phase' = "failed" /\ UNCHANGED outs
+           /\ UNCHANGED par
+TFinish == /\ IsEvent("Finish") /\ phase = "open" /\ Chk(WithinQuery(Ev))
+           /\ Chk(Verdict(par, fed, outs \o Opt(Ev, "out", <<>>), Ev.rc))
            /\ phase' = "idle" /\ UNCHANGED <<par, fed, outs>>
+TFinishFailed == /\ IsEvent("Finish") /\ phase = "failed" /\ Ev.rc # 1
+                 /\ Chk(Verdict(par, fed \o Opt(Ev, "rest", <<>>), <<>>, Ev.rc))
+                 /\ phase' = "idle" /\ UNCHANGED <<par, fed, outs>>
 (* a context whose init was refused: only acceptable when the definition itself has no value for these parameters *)
 TFinishRefused == /\ IsEvent("Finish") /\ phase = "refused" /\ Has(par, "mayrefuse") /\ phase' = "idle" /\ UNCHANGED <<par, fed, outs>>
-TCall == /\ IsEvent("Call") /\ phase = "idle" /\ WithinQuery(Ev)
-         /\ (Verdict(Ev, Opt(Ev, "in", <<>>), Ev.out, Ev.rc) \/ (Has(Ev, "mayrefuse") /\ Ev.rc # 1))
+TCall == /\ IsEvent("Call") /\ phase = "idle" /\ Chk(WithinQuery(Ev))
+         /\ Chk(Verdict(Ev, Opt(Ev, "in", <<>>), Ev.out, Ev.rc) \/ (Has(Ev, "mayrefuse") /\ Ev.rc # 1))
          /\ UNCHANGED <<phase, par, fed, outs>>
+(* protect-then-unprotect through the library for every payload length: identity, type preserved, reported length within the ciphertext *)
+TRoundTrip == /\ IsEvent("RoundTrip") /\ phase = "idle"
+              /\ Chk(Ev.rc1 = 1 /\ Ev.rc2 = 1 /\ Ev.same = 1 /\ Ev.outlen = Ev.n /\ Ev.outlen <= Ev.midlen
+                     /\ (Ev.f = "tls13_rt" => (Ev.rtype = Ev.type /\ Ev.midlen = Ev.n + 1 + Ev.padlen + 16))
+                     /\ (Ev.f = "tls_cbc_rt" => (Ev.midlen % 16 = 0 /\ Ev.midlen >= 16 + Ev.n + 32 + 1 /\ Ev.midlen <= 16 + Ev.n + 32 + 256)))
+              /\ UNCHANGED <<phase, par, fed, outs>>
 TReset == IsEvent("Reset") /\ phase' = "idle" /\ par' = <<>> /\ fed' = <<>> /\ outs' = <<>>
-Next == TInit \/ TUpdate \/ TFinish \/ TFinishRefused \/ TCall \/ TReset
+Next == TInit \/ TUpdate \/ TFinish \/ TFinishFailed \/ TFinishRefused \/ TCall \/ TRoundTrip \/ TReset
 Spec == Init /\ [][Next]_vars
 
 Accepted == LET d == TLCGet("stats").diameter IN
